@@ -109,6 +109,14 @@ class Prop(common.PropertyCheck):
                     vals = [[2 * rng.randrange(0, 32) + (1 - vi), rng.randrange(0, 64) | (1 << (len(spec['names']) - 1))] for _ in ops]
                     for how in DUPS:
                         yield {'k': 'dup', 'spec': spec, 'ops': ops, 'vals': vals, 'how': how}
+        # detectors recorded with a voltage / gain of exactly zero (a switched-off detector, a clock channel): zero is a value like any other
+        for si in range(self.budget(2, 10)):
+            spec = samples.spec_rich(rng, N=rng.randrange(3, 12), D=4, datatype=['I', 'F'][si % 2])
+            spec['extra'] = [kv for kv in spec['extra'] if kv[0] not in ('$P1V', '$P3V', '$P4G')] + [['$P1V', '0'], ['$P3V', '0.0'], ['$P4G', '0']]
+            for ops in ([], ['slice_ev'], ['slice_ch', 'reads'], ['gate']):
+                vals = [[rng.randrange(0, 64), rng.randrange(0, 64)] for _ in ops]
+                for how in DUPS:
+                    yield {'k': 'dup', 'spec': spec, 'ops': ops, 'vals': vals, 'how': how}
         # samples loaded from an open file object: copies and views in every analysis state (an open file cannot be pickled; not tried)
         for si in range(self.budget(2, 10)):
             spec = samples.spec_rich(rng, N=rng.randrange(3, 12), datatype=['I', 'F'][si % 2])
